@@ -58,9 +58,13 @@ func (x *Err) UnmarshalXML(d *xml.Decoder, start xml.StartElement) error {
 			// TODO : change the pubsub handling ? It kind of dilutes the information
 			// Handles : 6.1.3.11 Node Has Moved for XEP-0060 (PubSubGeneric)
 			goneName := xml.Name{Space: "urn:ietf:params:xml:ns:xmpp-stanzas", Local: "gone"}
-			if elt.XMLName == textName || // Regular error text
-				elt.XMLName == goneName { // Gone text for pubsub
+			if elt.XMLName == textName { // Regular error text
 				x.Text = elt.Content
+			} else if elt.XMLName == goneName { // Gone is a condition like the others, that may carry a text (pubsub)
+				x.Reason = elt.XMLName.Local
+				if elt.Content != "" {
+					x.Text = elt.Content
+				}
 			} else if elt.XMLName.Space == "urn:ietf:params:xml:ns:xmpp-stanzas" ||
 				elt.XMLName.Space == "http://jabber.org/protocol/pubsub#errors" {
 				if strings.TrimSpace(x.Reason) != "" {
